@@ -71,7 +71,14 @@ pub fn subid_collision(_a: &Value) -> Value {
         let h = tokio::spawn(async move { c2.subscribe::<String, _>("sub", rpc_params![], "unsub").await });
         let rq = s.next_request().await.unwrap();
         s.push(json!({"jsonrpc":"2.0","id":rq["id"],"result":"S"}));
-        let second = h.await.unwrap();
+        // the client's request timeout is 2 s: the second subscribe must be over well within 6 s, whatever its outcome
+        let second = match tokio::time::timeout(std::time::Duration::from_secs(6), h).await {
+            Ok(r) => r.unwrap(),
+            Err(_) => {
+                return json!({"scenario":"c03_subid_collision","observed":{"second_subscribe":"still pending after 6 s","connected":c.is_connected()},"violation":true,
+                              "why":"a subscribe call answered with a subscription id already in use stays pending beyond the request timeout"});
+            }
+        };
         let second_accepted = second.is_ok();
         s.push(json!({"jsonrpc":"2.0","method":"sub","params":{"subscription":"S","result":"for-A"}}));
         let got = tokio::time::timeout(std::time::Duration::from_millis(500), a.next()).await;
